@@ -17,6 +17,10 @@ VERIF_DIR = __import__("os").path.dirname(__import__("os").path.dirname(__import
 PROPS = {
     "C03": {
         "model_mm_filter": "result-kinds",   # hash / distance VALUES are C01's / C02's business (DESIGN §14)
+        # the model of update() is tied to the code by the `core` lines (len, tail, processed_len after every piece);
+        # finalisation results in `hist` / `gen` lines are judged by the probe's direct oracles (chunked = one shot,
+        # history = fresh generator fed the bytes seen, finalize leaves the state untouched)
+        "model_mm_ops": ["core"],
         "modules": [T + "C03"],
         "theorems": [(T + "C03.chunking", T + "C03"),
                      (T + "C03.chunking_generator", T + "C03"),
@@ -543,6 +547,7 @@ PROPS = {
     "C07": {
         "crash_concrete": True,   # a configuration whose probe process dies disagrees with the others
         "build_failure_is_obligation": True,
+        "model_mm_filter": "ignore",   # relative property: configurations / back ends are compared with each other
         "modules": [T + "C07"],
         "theorems": [(T + "C07.generate_any_cfg_eq_spec", T + "C07"),
                      (T + "C07.generate_cfg_irrelevant", T + "C07"),
